@@ -116,9 +116,9 @@ type StreamCase struct {
 func genStreamCase(t *rapid.T) StreamCase {
 	d := genData(t, "d")
 	c := StreamCase{Data: d, Cuts: genCuts(t, "cut", len(d)), Reader: rapid.Bool().Draw(t, "reader"), Multi: rapid.Bool().Draw(t, "multi")}
+	c.ErrAt = rapid.IntRange(0, 6).Draw(t, "errAt")
 	if c.Reader {
 		c.EndMode = rapid.SampledFrom([]int{0, 0, 1, 1, 2}).Draw(t, "endMode")
-		c.ErrAt = rapid.IntRange(0, 6).Draw(t, "errAt")
 	}
 	n := 1
 	if c.Multi {
@@ -174,7 +174,7 @@ func (c *chunkReader) Read(p []byte) (int, error) {
 
 var specC12Stream = Register(&Spec[StreamCase]{
 	Prop: "C12", Name: "stream",
-	Rule: "byte strings of 0..64 KiB (block-boundary lengths 55,56,63,64,65,111,112,119,120,127,128,129 in a dedicated class; small contents fully rapid-owned) x up to 6 cut points (empty chunks allowed) x an ordered list of 0..5 algorithm names with repetition x {writer, reader} x {single, plural constructor}; source readers end with (0, EOF), deliver their last chunk together with io.EOF, or fail with (n>0, error) after a generated chunk (the stream is then what was delivered). Oracle: the bytes arriving at the target / delivered by the reader equal the input; per hasher Name() is the requested name in order, Size() the byte count so far after every chunk and the total at the end, Sum(nil) the crypto/md5, sha1, sha256, sha512 digest of the whole input. Non-trivial: >= 1 byte in >= 2 chunks (and >= 2 algorithms for the plural constructors); distinct by case.",
+	Rule: "byte strings of 0..64 KiB (block-boundary lengths 55,56,63,64,65,111,112,119,120,127,128,129 in a dedicated class; small contents fully rapid-owned) x up to 6 cut points (empty chunks allowed) x an ordered list of 0..5 algorithm names with repetition x {writer, reader} x {single, plural constructor}; source readers end with (0, EOF), deliver their last chunk together with io.EOF, or fail with (n>0, error) after a generated chunk (the stream is then what was delivered). Oracle: the bytes arriving at the target / delivered by the reader equal the input; per hasher Name() is the requested name in order, Size() the byte count so far after every chunk and the total at the end, Sum(nil) the crypto/md5, sha1, sha256, sha512 digest of the whole input; FileHashFromHasher taken in the middle of a written stream describes the prefix and does not disturb the rest, and taken twice at the end (before Sum) gives the true digest both times. Non-trivial: >= 1 byte in >= 2 chunks (and >= 2 algorithms for the plural constructors); distinct by case.",
 	Check: func(c StreamCase, r *Recorder) error {
 		chunks := chunksOf(c.Data, c.Cuts)
 		nonEmpty := 0
@@ -227,7 +227,7 @@ var specC12Stream = Register(&Spec[StreamCase]{
 				return errf("constructor failed for %v: %v", c.Algos, err)
 			}
 			sofar := 0
-			for _, ch := range chunks {
+			for ci, ch := range chunks {
 				n, err := w.Write(ch)
 				if err != nil || n != len(ch) {
 					return errf("Write of %d bytes returned %d, %v", len(ch), n, err)
@@ -235,6 +235,16 @@ var specC12Stream = Register(&Spec[StreamCase]{
 				sofar += len(ch)
 				if err := checkSizes(sofar); err != nil {
 					return err
+				}
+				if ci == c.ErrAt%len(chunks) {
+					// an entry taken from a hasher in the middle of the stream describes the bytes so far,
+					// and taking it must not disturb what follows
+					for i, h := range hashers {
+						fh := control.FileHashFromHasher("mid", *h)
+						if fh.Hash != trueDigest(c.Algos[i], c.Data[:sofar]) || fh.Size != int64(sofar) {
+							return errf("FileHashFromHasher(%s) after %d of %d bytes = (%s, %d), true digest of the prefix is %s", c.Algos[i], sofar, len(c.Data), fh.Hash, fh.Size, trueDigest(c.Algos[i], c.Data[:sofar]))
+						}
+					}
 				}
 			}
 		} else {
@@ -280,6 +290,13 @@ var specC12Stream = Register(&Spec[StreamCase]{
 			return errf("%d hashers for %d requested algorithms", len(hashers), len(c.Algos))
 		}
 		for i, h := range hashers {
+			// entries first, twice, and only then Sum: none of these may change the hasher's answer
+			for rep := 0; rep < 2; rep++ {
+				fh0 := control.FileHashFromHasher("p", *h)
+				if fh0.Hash != trueDigest(c.Algos[i], c.Data) {
+					return errf("FileHashFromHasher(%s) call %d on the finished stream gives %s, true digest %s (%d bytes)", c.Algos[i], rep+1, fh0.Hash, trueDigest(c.Algos[i], c.Data), len(c.Data))
+				}
+			}
 			if h.Name() != c.Algos[i] {
 				return errf("hasher %d: Name() = %q, requested %q", i, h.Name(), c.Algos[i])
 			}
